@@ -289,6 +289,15 @@ package css
 
 //@ func Lexer.Err
 //@   requires[S] lexInv(l)
+// IsIdent agrees with the lexer on how an identifier may begin: what the lexer gives as a number, a dimension or a lone
+// delimiter ('-5', '-5px', '-', '5x') is not an identifier
+//@ func IsIdent
+//@   ensures[F,C07] @not-a-number: result && len(b) >= 1 ==> !('0' <= old(b[0]) && old(b[0]) <= '9') && !(old(b[0]) == '-' && (len(b) == 1 || ('0' <= old(b[1]) && old(b[1]) <= '9')))
+// IsURLUnquoted agrees with the lexer's unquoted-url scanner on the first byte: a URL that would have to start with ')', a
+// quote, '(', a space, a control character or DEL is not accepted
+//@ func IsURLUnquoted
+//@   ensures[F,C07] @first-byte: result && len(b) >= 1 ==> old(b[0]) != ')' && old(b[0]) != '"' && old(b[0]) != '\'' && old(b[0]) != '(' && old(b[0]) != ' ' && old(b[0]) > 0x1F && old(b[0]) != 0x7F
+
 //@ func NewLexer
 //@   ensures[S]  result != nil && result.r == r
 
@@ -351,10 +360,16 @@ package css
 //@   loop 1 decreases ite((!p.keepWS && tt == WhitespaceToken) || tt == CommentToken, len(p.l.r.buf) - p.l.r.pos + 1, 0)
 // what was skipped is recorded and stays recorded until the token is returned (Values() keeps one whitespace token
 // wherever whitespace, with or without comments around it, separated two tokens)
+// every token handed to the grammar functions is a piece of the input itself
+//@   ensures[F,C08] @token-of-input: result0 != ErrorToken ==> within(result1, p.l.r.buf)
+//@   loop 1 invariant[F] tt != ErrorToken ==> within(data, p.l.r.buf)
 //@   loop 1 transition[F,C08] @ws-recorded: prev(tt) == WhitespaceToken ==> p.prevWS
 //@   loop 1 transition[F,C08] @ws-sticky: prev(p.prevWS) ==> p.prevWS
 //@   loop 1 transition[F,C08] @comment-recorded: prev(tt) == CommentToken ==> p.prevComment
 //@   loop 1 transition[F,C08] @comment-sticky: prev(p.prevComment) ==> p.prevComment
+
+//@ func Parser.pushBuf
+//@   ensures[F] len(p.buf) == old(len(p.buf)) + 1 && (old(len(p.buf)) >= 1 ==> sameSlice(p.buf[0].Data, old(p.buf[0].Data))) && sameSlice(p.buf[len(p.buf)-1].Data, data)
 
 //@ func Parser.parseStylesheet
 //@   preserves[S] cpInv(p) && p.l.r.pos >= old(p.l.r.pos)
@@ -370,6 +385,11 @@ package css
 //@   loop * candidate[T] cpM(p) <= old(cpM(p))
 
 //@ func Parser.parseDeclarationList
+// the name a declaration (or a nested ruleset's first selector token) starts with is the token as it stands in the input: the
+// one the function was entered with, one popped from the lexer, or the IE hack's concatenation '*' + name; it is not rewritten
+// before the unit is built (the lower-cased copy is made for data only once the unit is known to be a declaration)
+//@   loop 1 invariant[F] sameSlice(p.data, old(p.data)) || within(p.data, p.l.r.buf) || p.tt == ErrorToken
+//@   callsite css.Parser.parseDeclaration[F,C08] @name-is-token: sameSlice(arg0.data, old(p.data)) || within(arg0.data, arg0.l.r.buf) || arg0.data[0] == '*'
 // a comment in front of the declaration is skipped first, then the empty declarations (';'): no comment is left when they are
 //@   loop 1 invariant[F] @comment-first: p.tt != CommentToken
 //@   loop * candidate p.tt != CommentToken
@@ -507,6 +527,10 @@ package css
 //@   loop * candidate[T] cpM(p) <= old(cpM(p))
 //@   loop * decreases 2*(len(p.l.r.buf) - p.l.r.pos) + ite(first, 1, 0)
 //@ func Parser.parseDeclaration
+// a declaration ends at a ';' or '}' outside all brackets, or at the end of the input
+//@   ensures[F,C08,perpath,local] @ends-at-level0: result == DeclarationGrammar ==> tt == ErrorToken || p.level == 0
+// the first token of the unit under construction is the name token exactly as the caller passed it
+//@   ensures[F,C08,perpath,local] @first-token: result == BeginRulesetGrammar ==> len(p.buf) >= 1 && sameSlice(p.buf[0].Data, old(p.data))
 // the error position of 'expected colon' is the offset of the FIRST token after the property name: once recorded it stays
 //@   loop 1 transition[F,C15] @offset-first: prev(offset) != 0 ==> offset == prev(offset)
 //@   loop 1 transition[F,C15] @offset-set: prev(offset) == 0 ==> offset == p.l.r.pos - len(data)
@@ -528,11 +552,13 @@ package css
 //@   ensures[T,C01] @measure: cpMstep(p, result)
 //@   loop * candidate[T] cpM(p) <= old(cpM(p))
 //@   loop * candidate len(p.buf) >= 1
+//@   loop 1 candidate[F] len(p.buf) >= 1 && sameSlice(p.buf[0].Data, old(p.data))
 //@   loop * candidate 0 <= j && j <= i && i <= len(p.buf)
 //@   loop * candidate 1 <= i && i <= len(p.buf)
 //@   loop * candidate 0 <= offset
 //@   loop 1 decreases len(p.l.r.buf) - p.l.r.pos
 //@ func Parser.parseDeclarationError
+//@   ensures[F,C08] @error-unit: result == ErrorGrammar
 //@   loop 1 transition[F,C08] @level: smallInt(prev(p.level)) ==> p.level == prev(p.level) + cssLevelStep(prev(tt))
 //@   loop * candidate len(p.state) == old(len(p.state))
 //@   loop * candidate p.prevEnd == old(p.prevEnd)
